@@ -141,56 +141,63 @@ func satisfiesConstraint(version *Version, c *constraint, ecosystem *Ecosystem) 
 
 // satisfiesPessimistic implements the Ruby Gem pessimistic constraint (~>)
 func satisfiesPessimistic(version, constraint *Version) bool {
-	// ~> 1.2.3 means >= 1.2.3 and < 1.3.0
-	// ~> 1.2 means >= 1.2.0 and < 2.0.0
+	// ~> 1.2.3 means >= 1.2.3 and < 1.3
+	// ~> 1.2 means >= 1.2 and < 2.0
+	// RubyGems: version >= constraint && version.release < constraint.bump
 
 	// Must be >= constraint version
 	if version.Compare(constraint) < 0 {
 		return false
 	}
 
-	// Get the numeric parts of both version and constraint for comparison
-	versionNumeric, _ := version.splitNumericAndPrerelease()
-	constraintNumeric, constraintPrerelease := constraint.splitNumericAndPrerelease()
-
-	// For range calculations, we need to understand the original precision
-	// Count numeric segments from the original constraint string
-	constraintStr := constraint.String()
-	mainPart := constraintStr
-	if dashIndex := strings.Index(constraintStr, "-"); dashIndex != -1 {
-		mainPart = constraintStr[:dashIndex]
+	// Upper bound (Gem::Version#bump): the release segments of the constraint as written,
+	// without the last one (if there is more than one), with the new last one incremented
+	upper := releaseSegments(constraint.String())
+	if len(upper) == 0 {
+		return true
 	}
-	originalSegments := strings.Split(mainPart, ".")
-	numericSegments := len(originalSegments)
-
-	// For pessimistic constraints, all segments except the last must match exactly
-	numSegmentsToCheck := numericSegments - 1
-
-	// Special case: single segment constraint (~> 1)
-	if numericSegments == 1 {
-		numSegmentsToCheck = 1
-	}
-
-	// Special case: constraint has prerelease (~> 1.0.0-alpha)
-	// When constraint has prerelease, all numeric segments must match exactly
-	if len(constraintPrerelease) > 0 {
-		numSegmentsToCheck = numericSegments
-	}
-
-	// Check that the required segments match exactly
-	for i := 0; i < numSegmentsToCheck; i++ {
-		var vSeg, cSeg int
-		if i < len(versionNumeric) {
-			vSeg = versionNumeric[i].numValue
+	if _, prerelease := constraint.splitNumericAndPrerelease(); len(prerelease) > 0 {
+		// Special case kept from the existing behaviour: a constraint with a prerelease
+		// (~> 1.0.0-alpha) only admits versions of that same release
+		upper[len(upper)-1]++
+	} else {
+		if len(upper) > 1 {
+			upper = upper[:len(upper)-1]
 		}
-		if i < len(constraintNumeric) {
-			cSeg = constraintNumeric[i].numValue
-		}
+		upper[len(upper)-1]++
+	}
 
-		if vSeg != cSeg {
-			return false
+	// The release part of the version must be below the upper bound
+	release := releaseSegments(version.String())
+	for i := 0; i < len(release) || i < len(upper); i++ {
+		var r, u int
+		if i < len(release) {
+			r = release[i]
+		}
+		if i < len(upper) {
+			u = upper[i]
+		}
+		if r != u {
+			return r < u
 		}
 	}
+	return false
+}
 
-	return true
+// releaseSegments returns the leading numeric segments of a version as written (trailing zeros
+// kept, prerelease segments and build metadata dropped).
+func releaseSegments(text string) []int {
+	text = strings.TrimPrefix(strings.TrimSpace(text), "v")
+	if plusIndex := strings.Index(text, "+"); plusIndex != -1 {
+		text = text[:plusIndex]
+	}
+	var release []int
+	for _, part := range segmentPattern.FindAllString(strings.ReplaceAll(text, "-", ".pre."), -1) {
+		seg := createSegment(part)
+		if !seg.isNumeric {
+			break
+		}
+		release = append(release, seg.numValue)
+	}
+	return release
 }
